@@ -6,8 +6,10 @@ from .contract import Env
 from .loops import havoc_locations
 
 
-def make_result(eng, st, con, E):
+def make_result(eng, st, con, E, case=None):
     r = con.result
+    if case is not None and getattr(case, "result", None) is not None:
+        r = case.result
     if r is None:
         return st, NONE
     if callable(r):
@@ -49,6 +51,9 @@ def apply_contract(eng, st, con, pos, kw, constructing=None):
     res = []
     reqs = []
     for case in con.cases:
+        applies = getattr(case, "applies", None)
+        if applies is not None and not applies(a, st):
+            continue
         types = getattr(case, "types", None)
         if types and any(not isinstance(a.get(k), t) and not (t is VStr and isinstance(a.get(k), VConc))
                          for k, t in types.items()):
@@ -65,11 +70,17 @@ def apply_contract(eng, st, con, pos, kw, constructing=None):
             if constructing is not None:
                 result = a["self"]
             else:
-                s2, result = make_result(eng, s2, con, Env(a, st, s2, eng=eng))
+                s2, result = make_result(eng, s2, con, Env(a, st, s2, eng=eng), case)
             ens = case.ensures(Env(a, st, s2, res=result, eng=eng))
-            s2 = s2.assume(ens)
-            if eng.feasible(s2):
-                res.append(("ok", s2, result))
+            s2n = s2.assume(ens)
+            if eng.feasible(s2n):
+                res.append(("ok", s2n, result))
+            mr = getattr(case, "may_raise", None)
+            if mr:
+                er = getattr(case, "ensures_on_raise", None) or case.ensures
+                s2r = s2.assume(er(Env(a, st, s2, exc=mr, eng=eng)))
+                if eng.feasible(s2r):
+                    res.append(("raise", s2r, VExc(mr)))
         else:
             ens = case.ensures(Env(a, st, s2, exc=case.raises, eng=eng))
             s2 = s2.assume(ens)
